@@ -170,5 +170,15 @@ func init() {
 		Rule: "each run = 6-30 drawn client requests written as raw HTTP/1.1 bytes (method, path segments with escaped bytes, query pairs incl. empty/repeated/encoded/malformed, end-to-end and hop-by-hop headers, X-Forwarded-For chains, bodies 0 B-256 KiB with Content-Length or chunked) against drawn scripted upstream answers (status 200-503, header sets, bodies fixed or streamed in pieces), plus gateway-terminated cases provoked through state (unknown host, DenyAllRequests gate, cluster without reachable endpoint, exhausted limiter, refused impersonation); fault profile: upstream connection reset/truncated; distinct = distinct trace hash; non-trivial = at least one forwarded request compared end to end",
 		Real: gwReal, Stub: gwStub, Assume: append([]string{"the path is compared decoded (the dispatcher rebuilds the URL from URL.Path: %2F arrives as /, recorded as an observation); query pairs url.ParseQuery rejects are outside 'query parameters'", "the HTTP layer may add User-Agent/Accept-Encoding upstream and Cache-Control/Date/Content-Length/Transfer-Encoding/Connection/sniffed Content-Type downstream"}, gwAssume...),
 	})
+	reg(&Check{
+		ID:    "C02",
+		Title: "Identity propagation: upstream acts as exactly the authenticated user",
+		Batches: []Batch{
+			{World: "gw", Profile: "c02-nofault", Quick: 150, Thor: 8000, PerProc: 1, FaultFree: true},
+			{World: "gw", Profile: "c02-faults", Quick: 50, Thor: 3000, PerProc: 1},
+		},
+		Rule: "each run = 1-2 clusters with drawn token tables (names/groups/extra keys with odd bytes) and a drawn impersonation SAR policy (allow/deny/no-opinion per user, group, extra value, service account; fault profile: SAR backend errors), 8-28 raw requests with drawn combinations and casings of Authorization (valid, invalid, absent, duplicated), Impersonate-User (plain, service account, anonymous, empty), 0-3 Impersonate-Group, Impersonate-Extra-<escaped keys>, and other Impersonate-* members; the oracle compares what each stub upstream received with a reference computed from the property text; distinct = distinct trace hash; non-trivial = at least one request forwarded and one refused by the gateway",
+		Real: gwReal, Stub: gwStub, Assume: append([]string{"the authenticated identity includes system:authenticated as added by the gateway's authenticator chain; extra keys are compared lower-cased and unescaped (kube impersonation convention)", "websocket bearer sub-protocol and upgrade requests are not simulated"}, gwAssume...),
+	})
 	reg(&Check{ID: "SMOKE", Title: "debug", Batches: []Batch{{World: "gw", Profile: "smoke", Quick: 1, Thor: 1, PerProc: 1}}})
 }
